@@ -761,12 +761,23 @@ def has_side_effect(node: ast.AST, safe_callable_whitelist: Collection[str] = fr
 
 @functools.lru_cache(maxsize=100)
 def _get_line_start_charnos(source: str) -> Sequence[int]:
+    # Lines end where the python tokenizer ends them (\n, \r\n, \r), which is what ast linenos
+    # count. str.splitlines() also splits on form feeds, \x1c-\x1e, \x85, \u2028 and \u2029.
     start = 0
     charnos = []
-    for line in source.splitlines(keepends=True):
+    for line in re.findall(r"[^\r\n]*(?:\r\n|\r|\n)|[^\r\n]+\Z", source):
         charnos.append(start)
         start += len(line)
     return tuple(charnos)
+
+
+def _get_charno(source: str, line_start_charno: int, col_offset: int) -> int:
+    """Character number of an ast position. Ast col_offsets count utf-8 bytes, not characters."""
+    if source.isascii():
+        return line_start_charno + col_offset
+
+    line_start = source[line_start_charno : line_start_charno + col_offset]
+    return line_start_charno + len(line_start.encode("utf-8")[:col_offset].decode("utf-8", "ignore"))
 
 
 class Range(NamedTuple):
@@ -859,11 +870,15 @@ def get_charnos(node: ast.AST, source: str, keep_first_indent: bool = False) -> 
     start_position = _get_position(start)
     node_position = _get_position(node)
 
-    start_charno = line_start_charnos[start_position.lineno - 1] + start_position.col_offset
+    start_charno = _get_charno(
+        source, line_start_charnos[start_position.lineno - 1], start_position.col_offset
+    )
     if getattr(node, "end_lineno", None) is None:
         return Range(start_charno, start_charno)
 
-    end_charno = line_start_charnos[node_position.end_lineno - 1] + node_position.end_col_offset
+    end_charno = _get_charno(
+        source, line_start_charnos[node_position.end_lineno - 1], node_position.end_col_offset
+    )
 
     code = source[start_charno:end_charno]
     if code and code[0] == " ":
